@@ -404,12 +404,45 @@ func enumC10(tier string, seed uint64) []EnumResult {
 			}
 		}
 	}
+	// A complete packet - a header and as many further frames as it announces - yields a packet or an
+	// error: a decoder that answers with neither is wedged (it takes every later frame of the connection
+	// for an attachment and never reports anything).
+	complete := func(s []byte) {
+		n := 0
+		if len(s) > 0 && (s[0] == '5' || s[0] == '6') {
+			i := 1
+			for ; i < len(s) && s[i] >= '0' && s[i] <= '9' && i < 4; i++ {
+				n = n*10 + int(s[i]-'0')
+			}
+			if i == 1 || i >= len(s) || s[i] != '-' {
+				return // no well-formed attachment count: nothing is announced
+			}
+		}
+		defer func() { recover() }() // panics are reported by try
+		ps := refParser()
+		answered := false
+		for k := 0; k <= n && !answered; k++ {
+			f := s
+			if k > 0 {
+				f = []byte{7}
+			}
+			if err := ps.Add(f, func(*parser.PacketHeader, string, parser.Decode) { answered = true }); err != nil {
+				answered = true
+			}
+		}
+		res.Cases++
+		if !answered && !seen["wedge"] {
+			seen["wedge"] = true
+			res.Violations = append(res.Violations, sim.Violation{Class: "C10/decoder-wedged", Sig: "complete packet without answer", Detail: fmt.Sprintf("Parser.Add(%q) followed by the %d attachment frame(s) it announces: no packet, no error", s, n)})
+		}
+	}
 	buf := make([]byte, maxLen)
 	var rec func(k int)
 	rec = func(k int) {
 		s := append([]byte(nil), buf[:k]...)
 		res.Cases++
 		try([][]byte{s})
+		complete(s)
 		if k > 0 && (s[0] == '5' || s[0] == '6') {
 			try([][]byte{s, {1, 2, 3}})
 			try([][]byte{s, {}, []byte("x")})
@@ -433,6 +466,7 @@ func enumC10(tier string, seed uint64) []EnumResult {
 		`52-["bin",{"data":{"_placeholder":true,"num":1},"x":{"_placeholder":true,"num":0}}]`,
 	}
 	for _, c := range append(append([]string(nil), c10Corpus...), valid...) {
+		complete([]byte(c))
 		try([][]byte{[]byte(c)})
 		try([][]byte{[]byte(c), {9, 9}})
 		try([][]byte{[]byte(c), {9, 9}, {}})
